@@ -1,6 +1,7 @@
 pub mod h1;
 pub mod relay;
 pub mod requests;
+pub mod timeouts;
 
 use crate::scenario::Scenario;
 
@@ -9,7 +10,7 @@ static RESPONSES: requests::Requests = requests::Requests { focus: requests::Foc
 static EGRESS: requests::Requests = requests::Requests { focus: requests::Focus::Egress };
 
 pub fn all() -> Vec<&'static dyn Scenario> {
-    vec![&relay::Relay, &AUTH, &RESPONSES, &EGRESS, &h1::H1]
+    vec![&relay::Relay, &AUTH, &RESPONSES, &EGRESS, &h1::H1, &timeouts::Timeouts]
 }
 
 pub fn by_name(name: &str) -> Option<&'static dyn Scenario> {
